@@ -38,20 +38,20 @@ type Program struct {
 
 // LibShortNames are the library packages rules place obligations on.
 var LibShortNames = map[string]string{
-	ModPath:               "opcua",
-	ModPath + "/ua":       "ua",
-	ModPath + "/uacp":     "uacp",
-	ModPath + "/uasc":     "uasc",
-	ModPath + "/uapolicy": "uapolicy",
-	ModPath + "/server":   "server",
-	ModPath + "/monitor":  "monitor",
-	ModPath + "/errors":   "errors",
-	ModPath + "/debug":    "debug",
-	ModPath + "/stats":    "stats",
-	ModPath + "/id":       "id",
-	ModPath + "/schema":   "schema",
-	ModPath + "/server/attrs":   "attrs",
-	ModPath + "/server/refs":    "refs",
+	ModPath:                   "opcua",
+	ModPath + "/ua":           "ua",
+	ModPath + "/uacp":         "uacp",
+	ModPath + "/uasc":         "uasc",
+	ModPath + "/uapolicy":     "uapolicy",
+	ModPath + "/server":       "server",
+	ModPath + "/monitor":      "monitor",
+	ModPath + "/errors":       "errors",
+	ModPath + "/debug":        "debug",
+	ModPath + "/stats":        "stats",
+	ModPath + "/id":           "id",
+	ModPath + "/schema":       "schema",
+	ModPath + "/server/attrs": "attrs",
+	ModPath + "/server/refs":  "refs",
 }
 
 // Load loads the module at dir. It fails on any type error, on a zero
